@@ -1,4 +1,5 @@
-//! C18: `OVL <op> …` — an OverlayClock over a test clock whose reading the stream controls.
+//! C18: `OVL <op> …` — an OverlayClock over a test clock whose reading the stream controls, reached the way the
+//! daemon reaches it: through `SharedClock` handles (two clones, used alternately — they must share one state).
 //! new <u0> | adv <du> | freq <ppm bits: ppm·2^32> | step <offset bits> | now | conv <u>
 //! Observation: `ok <time bits>`.
 
@@ -6,7 +7,7 @@ use fixed::types::{I96F32, U96F32};
 use statime::{
     config::TimePropertiesDS,
     time::{Duration, Time},
-    Clock, OverlayClock,
+    Clock, OverlayClock, SharedClock,
 };
 use std::{cell::Cell, rc::Rc};
 
@@ -35,7 +36,8 @@ impl Clock for TestClock {
 #[derive(Default)]
 pub struct OvlExec {
     under: Option<Rc<Cell<u128>>>,
-    clock: Option<OverlayClock<TestClock>>,
+    clock: Option<[SharedClock<OverlayClock<TestClock>>; 2]>,
+    calls: usize,
 }
 
 const F32: i128 = 1 << 32;
@@ -50,11 +52,15 @@ impl Executor for OvlExec {
         if w[1] == "new" {
             let Some(u0) = arg(2) else { return "bad-op".into() };
             let cell = Rc::new(Cell::new(u0 as u128));
-            self.clock = Some(OverlayClock::new(TestClock(cell.clone())));
+            let a = SharedClock::new(OverlayClock::new(TestClock(cell.clone())));
+            let b = a.clone();
+            self.clock = Some([a, b]);
             self.under = Some(cell);
             return "ok -".into();
         }
-        let (Some(cell), Some(clock)) = (self.under.as_ref(), self.clock.as_mut()) else { return "dead".into() };
+        let (Some(cell), Some(handles)) = (self.under.as_ref(), self.clock.as_mut()) else { return "dead".into() };
+        self.calls += 1;
+        let clock = &mut handles[self.calls % 2];
         let r = match w[1] {
             "adv" => {
                 let Some(du) = arg(2) else { return "bad-op".into() };
@@ -74,7 +80,7 @@ impl Executor for OvlExec {
             "now" => guarded(|| clock.now().nanos().to_bits()),
             "conv" => {
                 let Some(u) = arg(2) else { return "bad-op".into() };
-                guarded(|| clock.time_from_underlying(Time::from_fixed_nanos(U96F32::from_bits(u as u128))).nanos().to_bits())
+                guarded(|| clock.0.lock().unwrap().time_from_underlying(Time::from_fixed_nanos(U96F32::from_bits(u as u128))).nanos().to_bits())
             }
             _ => return "bad-op".into(),
         };
